@@ -6,6 +6,15 @@ from lib.replay import replay_family
 F5_SIG = "cbo-twice"
 
 
+def classify_fm(ro):
+    # known finding F31: Func(x.M) - a method value - mocks the method by name but installs the receiver-less callback as it is: the
+    # callback receives the receiver where its first parameter should be (results computed from the argument are garbage)
+    if ro.get("world") == "life/fmvalue" and ro.get("op") == "Call" and str(ro.get("want", "")).startswith("cb:") and str(ro.get("got", "")).startswith("?"):
+        ro["finding"] = "F31"
+    else:
+        classify(ro)
+
+
 def classify(ro):
     # known finding F5 (C03): the origin placeholder re-enters the mock when the stack must grow
     # (also while a preemption request is pending: the runtime then makes every stack check fail once)
